@@ -191,3 +191,87 @@ def r2h(fb, rep):
                           "type-checked against `IO a` (module_type) but load an `a`" % root, c.where())
         else:
             rep.ok(R, "%s: run_io at the top level (type and value returned together)" % root)
+
+
+def r2i(fb, rep):
+    """R2i — a visitor that collects the names a *pattern* binds must listen on every hook through which `ast::walk_pattern`
+    delivers a binder (C02: the recursion check marks pattern-bound aliases of a not-yet-initialised `rec` value; a binder it does
+    not see may be called while it still holds the placeholder: "Cannot call 0").
+
+    The hooks are read from the MIR of `walk_pattern`: the `Visitor` methods it calls with an identifier (`visit_ident` for
+    `x` and constructor names, `visit_spanned_ident` for `x@p` and record fields `{ x }`).  Every impl of `ast::Visitor` /
+    `MutVisitor` that overrides one of them and leaves the traversal (`visit_pattern`) to the default must override all of them."""
+    R = "R2i"
+    rep.rule(R, "pattern-binder visitors override every identifier hook that walk_pattern calls")
+    hooks = set()
+    for bid, b in fb.bodies.items():
+        if bid.startswith("gluon_base::ast::") and bid.endswith("::walk_pattern"):
+            for c in b.calls():
+                fn = c.fn or ""
+                if "Visitor::visit_" in fn:
+                    m = fn.rsplit("::", 1)[1]
+                    if m in ("visit_ident", "visit_spanned_ident", "visit_spanned_typed_ident"):
+                        hooks.add(m)
+    if len(hooks) < 2:
+        rep.anchor_lost(R, "identifier hooks called by ast::walk_pattern (%s)" % sorted(hooks))
+        return
+    n = 0
+    for im in fb.impls:
+        tr = im.get("trait") or ""
+        if not (tr.startswith("gluon_base::ast::") and tr.endswith("Visitor")):
+            continue
+        items = {it["name"] for it in im["items"]}
+        mine = items & hooks
+        if not mine or "visit_pattern" in items or "visit_expr" in items:
+            continue  # not a pure binder collector (it drives its own traversal)
+        n += 1
+        name = im["_crate"].types[im["self"]]["s"]
+        missing = hooks - items
+        if missing:
+            rep.violation(R, "binder-hook-missing|%s|%s" % (name.split("<")[0], ",".join(sorted(missing))),
+                          "%s collects pattern binders through %s but not through %s, which ast::walk_pattern also uses for names a pattern introduces "
+                          "(as-patterns, record shorthand fields): those names escape the collector" % (name, sorted(mine), sorted(missing)),
+                          "%s:%s" % (im.get("file"), im.get("line")))
+        else:
+            rep.ok(R, "%s overrides %s" % (name, sorted(hooks)))
+    rep.floor(R, "pure pattern-binder visitors", n, 1)
+
+
+def r2j(fb, rep):
+    """R2j — record literals: the shortcut that skips the check against the expected record type compares the value fields
+    *in order* (C02/C01: value fields are ordered; their order is the run-time layout.  `let r : { x : Int, y : String } =
+    { y = "a", x = 2 } in r.x` was accepted because the shortcut compared the names as a set, and read the String as an Int).
+
+    In the record case of the checker's expression function the expected type is dropped (`Option::take`) when the literal
+    names exactly the expected fields; the general path (unification of the two row types) is order sensitive, so the shortcut
+    must be too: the `take` has to be dominated by an ordered comparison (`Iterator::eq` / `eq_by` / `zip`) of the literal's
+    field names with `row_iter()` of the expected type."""
+    R = "R2j"
+    rep.rule(R, "the record-literal shortcut compares value-field names with the expected row in order before it drops the expected type")
+    tcs = [b for b in fb.bodies.values() if b.crate.name == "gluon_check" and b.kind == "fn" and b.id.endswith("::typecheck_")]
+    if len(tcs) != 1:
+        rep.anchor_lost(R, "Typecheck::typecheck_")
+        return
+    b = tcs[0]
+    rows = [c for c in b.calls() if (c.fn or c.res).endswith("TypeExt::row_iter") or (c.fn or c.res).endswith("TypeExt::type_field_iter")]
+    takes = [c for c in b.calls() if c.res.endswith("Option::<T>::take") and c.args and "ModType" in b.local_tstr(op_place(c.args[0])[0])]
+    rec_takes = [t for t in takes if any(b.dominates(r.bb, t.bb) for r in rows if (r.fn or r.res).endswith("type_field_iter"))]
+    if not rec_takes:
+        rep.ok(R, "the record case has no shortcut that drops the expected type")
+        return
+    ordered = [c for c in b.calls() if (c.fn or "").endswith("Iterator::eq") or (c.fn or "").endswith("Iterator::eq_by") or (c.fn or "").endswith("Iterator::zip")]
+    for t in rec_takes:
+        good = False
+        for c in ordered:
+            if not b.dominates(c.bb, t.bb):
+                continue
+            srcs = set()
+            for a in c.args:
+                srcs |= flow.sources(b, a, depth=12)
+            if flow.has_call(srcs, lambda n: n.endswith("TypeExt::row_iter")):
+                good = True
+        if good:
+            rep.ok(R, "record literal: expected type dropped only after an ordered comparison of the field names with row_iter() (%s)" % t.where())
+        else:
+            rep.violation(R, "record-shortcut-unordered", "the record case drops the expected type after comparing field names without regard to their order: "
+                          "a literal with the expected fields in another order is accepted although its run-time layout differs from the annotated type", t.where())
